@@ -5,6 +5,18 @@ CHECKS = {
  'C01': dict(text='TLC generates the abstract inputs (edit scripts of Inputs.tla: every op x position x ~55 character classes, depth 2 by simulation); a driver applies them to corpus numbers of all 234 modules (+ non-string values, long inputs, options, clocks) and records validate/is_valid; TLC validates every recorded session against the contract machine Api.tla (clauses V1 V2 V3). Bounded-exhaustive at the abstract level, sampled at the concrete level.',
              note='Trusted: TLC, CPython, the recorder (harness/vlib/lib.py call()). Coverage of the string space is by abstract enumeration x concretisation, not proof.',
              tech='TLA+ contract state machine (Api.tla) + TLC trace validation of recorded sessions; TLC-generated inputs (Inputs.tla)', ref='DESIGN.md §4 C01'),
+ 'C02': dict(text='Session validate(x,o); validate(result,o) recorded for every accepted presentation (corpus spellings, whitespace, case, TLC-generated separator/look-alike/duplication decorations at every position, module string constants substituted for words) under every option; TLC validates clauses F1 (exact fixed point) and F2 (no edge whitespace, on code points) of Api.tla.',
+             note='Trusted: TLC, CPython, recorder. Inputs are bounded-exhaustive abstract scripts x corpus; not a proof over all strings.',
+             tech='TLA+ session machine (Api.tla) + TLC trace validation; TLC-generated decorations', ref='DESIGN.md §4 C02'),
+ 'C03': dict(text='Session validate(x,o); compact(x); compact(y); validate(y,o) with y a TLC-generated decoration of a valid number / near-miss / garbage x; TLC evaluates D1: equal compact forms imply equal outcomes (exclusions are constants of the spec).',
+             note='Antecedent is the observed equality of compact(); the spec predicts nothing about which characters are stripped.',
+             tech='TLA+ session machine (Api.tla) + TLC trace validation of compact-equal pairs', ref='DESIGN.md §4 C03'),
+ 'C04': dict(text='Session validate(x); format(x,o); validate(format(x,o)); format(validate(x),o) for accepted presentations and documented format options; TLC evaluates G0/G1/G2 with the documented normalisations (ISMN, ISAN, ISIL, MEID, isbn convert, imei add_check_digit) written out in ApiFormat.tla.',
+             note='Alternative separators are used only when the module\'s own compact() is observed to remove them.',
+             tech='TLA+ session machine (Api.tla, ApiFormat.tla) + TLC trace validation', ref='DESIGN.md §4 C04'),
+ 'C15': dict(text='TLC enumerates (op, position, foreign character class); the driver puts a same-valued foreign digit / look-alike letter at every position of corpus numbers of every module (all Nd/No/Nl code points outside the clean-up table in thorough), plus case-mapping specials over the whole corpus; TLC evaluates S1 (returned value is ASCII) on every accepted session; exclusions are constants of the spec.',
+             note='Acceptance itself is not judged, only pass-through of non-ASCII characters.',
+             tech='TLA+ contract clause S1 (Api.tla) + TLC trace validation; TLC-generated foreign-character edits', ref='DESIGN.md §4 C15'),
 }
 def main():
     checks = []
